@@ -29,6 +29,9 @@ func c12Images(tier string) []c12Image {
 		{Name: "batch", Cfg: defaultCfg, Trace: "put a S; batch[put a S, put b S, del a]; put a S", Dense: true},
 		{Name: "rotated", Cfg: defaultCfg, Trace: "put a L; put b L; put a L; del b", Dense: true},
 		{Name: "merge-unadopted", Cfg: defaultCfg, Trace: "put a L; put b L; put a S; del b; put b S; merge", Dense: true},
+		// two live records in ONE rewritten file that is indexed through the hint only: the second one sits at an offset a
+		// truncated file no longer has
+		{Name: "hint-indexed-offsets", Cfg: roomyCfg(), Trace: "put b S; put a S; put b S; merge; restart", Dense: true},
 		{Name: "merge-adopted", Cfg: defaultCfg, Trace: "put a L; put b L; put a S; merge; restart; put b S", Dense: true},
 		// two rewritten files: the first one is indexed through the hint only (never scanned by the adopting Open)
 		{Name: "merge-unadopted-2files", Cfg: defaultCfg, Trace: "put a L; put b L; put a L; put b L; merge", Dense: true},
@@ -55,6 +58,12 @@ func c12Images(tier string) []c12Image {
 		)
 	}
 	return imgs
+}
+
+func roomyCfg() Cfg {
+	c := defaultCfg
+	c.FileSize = 1000
+	return c
 }
 
 type builtImage struct {
